@@ -65,6 +65,8 @@ type T struct {
 	backend  map[string]string
 	expected map[string]map[string]string
 	panics   int
+
+	notObserved []string
 }
 
 // Start begins a unit and checks that the process really is in the configuration
@@ -108,6 +110,32 @@ func (c *T) Backend(name, got string, sel func(Features) string) {
 			c.R.Vacuous(fmt.Sprintf("dispatch %s = %q under configuration %s, expected %q: the configuration did not select the back-end it is meant to exercise", name, got, c.R.Config(), want))
 		}
 	}
+}
+
+// NotObserved is the recorded value of a dispatch variable whose read-out file does not build against the
+// tree under test (the variable was renamed or removed by a refactoring). The transcript still runs and is
+// compared; the unit is NOT vacuous on that account: the configuration itself (feature bits, build tag) is
+// still measured by Start.
+const NotObserved = "dispatch not observed (read-out file does not build against this tree)"
+
+// BackendOptional records a dispatch variable through a read-out hook that a separate small file installs
+// in its init function. read == nil means that file was left out: recorded as NotObserved. A read-out that is
+// present and contradicts the expectation table makes the unit vacuous exactly like Backend.
+func (c *T) BackendOptional(name string, read func() string, sel func(Features) string) {
+	if read != nil {
+		c.Backend(name, read(), sel)
+		return
+	}
+	tab := map[string]string{}
+	for cfg, f := range Expected {
+		tab[cfg] = sel(f)
+	}
+	c.mu.Lock()
+	c.backend[name] = NotObserved
+	c.expected[name] = tab
+	c.notObserved = append(c.notObserved, name)
+	c.mu.Unlock()
+	c.R.Outcome("backend " + name + " = not observed")
 }
 
 // BackendFromFeatures is for units that cannot see the package-level dispatch variable (public-API
@@ -259,6 +287,10 @@ func (c *T) Finish(minCases int) {
 		sw[name] = distinctValues(tab)
 	}
 	c.R.Set("backend", c.backend)
+	if len(c.notObserved) > 0 {
+		sort.Strings(c.notObserved)
+		c.R.Set("dispatch_not_observed", c.notObserved)
+	}
 	c.R.Set("backend_expected_by_config", c.expected)
 	c.R.Set("backend_distinct_values_over_configs", sw)
 	c.R.Set("panicking_cases", c.panics)
